@@ -5,7 +5,7 @@
    Transcribed code (paths relative to /repo):
    * internal/protocol/session/connection_lifecycle.go  CreateConnection / CloseConnection   -> sstep
    * internal/protocol/session/tunnel_registry.go       Register / Remove                    -> treg_apply
-   * internal/protocol/session/client_registry.go       Register (evict oldest) / Remove     -> creg_apply
+   * internal/protocol/session/client_registry.go       Register (replace / evict oldest) / Remove -> creg_apply
    * internal/client/mapping/base_utils.go + base.go    admission of one local connection    -> mstep
    * internal/cloud/services/conncode/service.go CreateConnectionCode (step 2..5) and
      activation.go ActivateConnectionCode (step 5..7)   count-active then create             -> qstep
@@ -105,17 +105,20 @@ Fixpoint oldest (m : list (N * N)) : option (N * N) :=
               end
   end.
 
-(* ClientRegistry.Register: at capacity evict the oldest, then replace a present id, then insert — never refuses *)
+(* ClientRegistry.Register (as of /repo c61cb06): registering a ConnID that already has a record is a REPLACEMENT — the count
+   does not grow, so the capacity branch is not taken and nothing is evicted; a new ConnID at capacity evicts the oldest
+   record first.  Never refuses a valid connection. *)
 Definition creg_apply (max : nat) (o : rop) (m : list (N * N)) : rres * list (N * N) :=
   match o with
   | RReg id t =>
       if N.eqb id 0 then (RRefused, m)
+      else if has m id then (ROk, (id, t) :: del m id)
       else if at_cap max (length m) then
         match oldest m with
-        | Some old => (REvicted (fst old), (id, t) :: del (del m (fst old)) id)
+        | Some old => (REvicted (fst old), (id, t) :: del m (fst old))
         | None => (RRefused, m)
         end
-      else (ROk, (id, t) :: del m id)
+      else (ROk, (id, t) :: m)
   | RRem id => if has m id then (ROk, del m id) else (RNoop, m)
   end.
 
